@@ -22,6 +22,20 @@ def strings_upto(alpha, n):
     return out
 
 
+def long_tuples(fn):
+    """a few argument tuples with lengths, counts and indices of two digits (round 9: C15-B, Batch comparisons of integers made string
+    comparisons - "12" lss "3" - which only shows from ten on)"""
+    params, _ = SIGS[fn]
+    if fn == "TrimSpace":
+        return [("  abcabc abcabc \t",), ("abcabcabcabcabc",)]
+    return {"s": [("  abcabcabcabc  ",)],
+            "ss": [("abcabcabcabcab", "ca"), ("aaaaaaaaaaab", "b"), ("xyxyxyxyxyxyz", "xy"), ("abcabcabcabcabc", "abcabcabcabcabc"), ("abababababab", "ab")],
+            "sss": [("abcabcabcabcabc", "bc", "-"), ("aaaaaaaaaaaa", "a", "bb")],
+            "sssi": [("abcabcabcabcabcabcabcabcabcabcabcabc", "bc", "X", 11), ("abcabcabcabcabcabcabcabcabcabcabcabc", "bc", "X", -1), ("aaaaaaaaaaaaa", "a", "b", 12)],
+            "si": [("ab", 12), ("a", 10)],
+            "ls": [(["a", "b", "c", "d", "e", "f", "g", "h", "i", "j", "k", "l"], "-"), (["ab"] * 11, "")]}.get(params, [])
+
+
 def arg_tuples(rng, fn, quick):
     params, _ = SIGS[fn]
     alpha = "ab "
@@ -213,7 +227,7 @@ def run(res, b, tier, seed):
     batch_cases = []
     spec_dis, model_lines_by = [], {}
     for fn in SIGS:
-        tuples = arg_tuples(rng, fn, quick)
+        tuples = arg_tuples(rng, fn, quick) + long_tuples(fn)
         # what Go returns
         rc, golines, err = common.run_lines([b.tshdump, "gostrings"], [fn + " " + " ".join(enc_arg(a) for a in t) for t in tuples])
         reqs = [fn + " " + " ".join(enc_arg(a) for a in t) for t in tuples]
@@ -239,10 +253,11 @@ def run(res, b, tier, seed):
             # there the known finding substring-of-empty-string of C05 shows through the library
             def has_empty(t):
                 return any(a == "" or (isinstance(a, (list, tuple)) and "" in a) for a in t)
-            for tag, pool in (("batch-", [p_ for p_ in pairs if not has_empty(p_[0])]), ("batche-", [p_ for p_ in pairs if has_empty(p_[0])])):
+            longs = [p_ for p_ in pairs if p_[0] in long_tuples(fn)]
+            for tag, pool in (("batch-", [p_ for p_ in pairs if not has_empty(p_[0])]), ("batche-", [p_ for p_ in pairs if has_empty(p_[0])]), ("batchl-", longs)):
                 if not pool:
                     continue
-                bp = [r3.choice(pool) for _ in range(8 if tag == "batch-" else 3)]
+                bp = pool if tag == "batchl-" else [r3.choice(pool) for _ in range(8 if tag == "batch-" else 3)]
                 bexp = []
                 for k, (t, g) in enumerate(bp):
                     bexp.append("#%d" % k)
